@@ -15,7 +15,7 @@ mod wire;
 use simkit::batch::{cli_main, Level, Property, WorldDef};
 
 fn c14_space(thorough: bool) -> u64 {
-    if thorough { nts::C14_BASE + 60_000 } else { nts::C14_BASE }
+    if thorough { nts::C14_BASE + nts::C14_MULTI + 60_000 } else { nts::C14_BASE + nts::C14_MULTI }
 }
 
 fn run() {
@@ -44,7 +44,7 @@ fn main() {
         rule,
         assumptions,
     };
-    let mut c14 = p("C14", 0, 0, "one run = one case of the enumerated space (cookie length 0..=1024) x (stash fill 1..=8) x {NTPv4, NTPv5}: the cookies reach the stash through the real handle_incoming (authenticated response) or, where they cannot be carried by a <=1024-byte datagram, through the key-exchange constructor; then handle_timer is called for every stash level down to empty; thorough adds mixed-length stashes and non-NTS sources under random histories");
+    let mut c14 = p("C14", 0, 0, "one run = one case of the enumerated space (cookie length 0..=1024) x (stash fill 1..=8) x {NTPv4, NTPv5}: the cookies reach the stash through the real handle_incoming (authenticated response) or, where they cannot be carried by a <=1024-byte datagram, through the key-exchange constructor; then handle_timer is called for every stash level down to empty; a second enumerated family ({v4,v5} x 6 cookie-length classes x initial fill 1..=8 x surplus 1..=8 x 4 answer patterns) carries the stash across 20 poll/answer rounds against a key-holding server that returns more cookies than asked, exactly as many, fewer, none, or loses the answer; thorough adds mixed-length stashes and non-NTS sources under random histories");
     c14.level = Level::FaultEnumeration;
     c14.enumerate = Some(c14_space);
     c14.quick_wall_s = 85.0;
